@@ -16,8 +16,9 @@ def run(ctx):
                 "a probe workload (fresh interpreter, every reader over the corpus, writers, name look-ups) must have the "
                 "digest of a clean process. NameTable.tla: TLC checks BuildAtMostOnce / NoPartialRead / MutualExclusion for the "
                 "mutex-guarded lazy tables and finds the partial read without the lock; a -race build runs first-use races of "
-                "G goroutines over all entry points in fresh processes: the race detector must stay silent, results must equal "
-                "the sequential ones, and the hook events (H3, taken under the table mutex) are validated by TLC against "
+                "G goroutines over all entry points in fresh processes (every reader over the corpus, an operator workout on "
+                "per-goroutine values, seven fonts with different glyph sets written in all formats by all goroutines at once): the "
+                "race detector must stay silent, results must equal the sequential ones, and the hook events (H3, taken under the table mutex) are validated by TLC against "
                 "TraceNameTable.")
     ctx.assumptions = ["data races in the Go memory-model sense are observed by the race detector on the model-driven runs; "
                        "a TLA+ model cannot see an unsynchronised memory access (DESIGN.md section 13)"]
